@@ -126,6 +126,15 @@ def analyse(prog, pkgs):
                 if callee is not None and callee[0] == K_FUNC:
                     cn = callee[1]
                     w = writes.get(cn)
+                    if cn.startswith('(*sync/atomic.') or cn.startswith('sync/atomic.'):
+                        # atomic operations write through their first argument by way of unsafe pointers, which the
+                        # parameter summaries cannot follow: every one but the loads is a write to shared state
+                        meth = cn.split('.')[-1]
+                        l = _lab(args[0], lab) if args else None
+                        if l and not meth.startswith('Load'):
+                            written.add(l)
+                            findings.append((l, 'sync/atomic %s on' % meth, pos))
+                        continue
                     for i, a in enumerate(args):
                         l = _lab(a, lab)
                         if not l:
